@@ -137,7 +137,9 @@ def run_case(desc):
         else:
             pool = np.arange(n)
         k = int(rng.randint(1, len(pool) + 1))
-        cands = np.sort(rng.choice(pool, size=k, replace=False))
+        cands = rng.choice(pool, size=k, replace=False)
+        if rng.rand() < 0.5:          # index arrays are accepted in any order; rows of a boolean matrix follow that order
+            cands = np.sort(cands)
         n_rows = n
         rows_idx = cands
     else:
